@@ -18,9 +18,10 @@ type Value struct {
 	A    []Value `json:"a,omitempty"` // elements of * ~ > ; flattened key,value of %
 	Attr []Value `json:"attr,omitempty"`
 	// encoding choices that do not change the decoded value
-	Null2  byte  `json:"null2,omitempty"`  // for T=='_': 0 -> "_\r\n", '$' -> "$-1\r\n", '*' -> "*-1\r\n"
-	Chunks []int `json:"chunks,omitempty"` // for $: encode as streamed string with these chunk sizes
-	Stream bool  `json:"stream,omitempty"` // for * ~ % >: encode as streamed aggregate
+	Null2  byte   `json:"null2,omitempty"`  // for T=='_': 0 -> "_\r\n", '$' -> "$-1\r\n", '*' -> "*-1\r\n"
+	Chunks []int  `json:"chunks,omitempty"` // for $: encode as streamed string with these chunk sizes
+	Stream bool   `json:"stream,omitempty"` // for * ~ % >: encode as streamed aggregate
+	Raw    []byte `json:"-"`                // if set, these bytes are written verbatim instead of encoding the value
 }
 
 func Simple(s string) Value { return Value{T: '+', S: s} }
@@ -69,6 +70,9 @@ func (v Value) IsNull() bool { return v.T == '_' }
 
 // Append encodes v (RESP3 framing, honouring the encoding choices in v).
 func Append(dst []byte, v Value) []byte {
+	if v.Raw != nil {
+		return append(dst, v.Raw...)
+	}
 	if len(v.Attr) > 0 {
 		dst = append(dst, '|')
 		dst = strconv.AppendInt(dst, int64(len(v.Attr)/2), 10)
@@ -162,6 +166,9 @@ func Append(dst []byte, v Value) []byte {
 // AppendV2 encodes v in RESP2 framing: maps and sets become flat arrays, booleans integers,
 // doubles and big numbers bulk strings, null "$-1", pushes plain arrays, attributes dropped.
 func AppendV2(dst []byte, v Value) []byte {
+	if v.Raw != nil {
+		return append(dst, v.Raw...)
+	}
 	switch v.T {
 	case '_':
 		if v.Null2 == '*' {
